@@ -20,6 +20,7 @@ type c25Case struct {
 	Shape  []string
 	Family string
 	WF     *c25Cmd // non-nil: well-formed by construction for this command
+	For    *c25Cmd // the command the vector was built around (counters only, never the oracle)
 }
 
 func (k *c25Case) add(tok, class string) {
@@ -28,7 +29,7 @@ func (k *c25Case) add(tok, class string) {
 }
 
 func (k *c25Case) clone() *c25Case {
-	return &c25Case{Argv: append([]string(nil), k.Argv...), Shape: append([]string(nil), k.Shape...), Family: k.Family, WF: k.WF}
+	return &c25Case{Argv: append([]string(nil), k.Argv...), Shape: append([]string(nil), k.Shape...), Family: k.Family, WF: k.WF, For: k.For}
 }
 
 func (k *c25Case) insert(pos int, tok, class string) {
@@ -165,7 +166,7 @@ func c25Modelled(cmd *c25Cmd) []c25Opt {
 // c25WellFormed builds an invocation of cmd that is well-formed by
 // construction. richness 0 = bare (required positionals only).
 func c25WellFormed(r *rand.Rand, cmd *c25Cmd, richness int, family string) *c25Case {
-	k := &c25Case{Family: family, WF: cmd}
+	k := &c25Case{Family: family, WF: cmd, For: cmd}
 	for _, n := range cmd.Path {
 		k.add(n, "cmd:"+n)
 	}
@@ -290,7 +291,7 @@ func c25Hostile(r *rand.Rand, sf *c25Surface) (string, string) {
 	case n < 88:
 		// a real option token of a random command
 		l := sf.Leaves[r.Intn(len(sf.Leaves))]
-		opts := c25Modelled(l)
+		opts := c25Named(l) // incl. options with custom value types
 		if len(opts) == 0 {
 			return "-x", "free:-x"
 		}
@@ -314,7 +315,26 @@ func c25Mutate(r *rand.Rand, sf *c25Surface, k *c25Case) *c25Case {
 	m.WF = nil
 	m.Family = "mutated"
 	for i, n := 0, 1+r.Intn(3); i < n; i++ {
-		switch op := r.Intn(10); {
+		op := r.Intn(12)
+		if op >= 10 {
+			// an option-looking token (mostly a help flag) in place of the separate
+			// value of an option: the rest of the vector, in particular the
+			// positional arguments, stays complete
+			var vals []int
+			for p, cl := range m.Shape {
+				if strings.HasPrefix(cl, "val:") {
+					vals = append(vals, p)
+				}
+			}
+			if len(vals) > 0 {
+				p := vals[r.Intn(len(vals))]
+				v := c25OptlikeValue(r, m.For)
+				m.Argv[p], m.Shape[p] = v, "val:"+c25ValClass(v)
+				continue
+			}
+			op = 0
+		}
+		switch {
 		case op < 6 || len(m.Argv) == 0:
 			tok, cl := c25Hostile(r, sf)
 			m.insert(r.Intn(len(m.Argv)+1), tok, cl)
@@ -352,6 +372,10 @@ func c25Random(r *rand.Rand, sf *c25Surface) *c25Case {
 		return c25WellFormed(r, leaf, 3, "wellformed")
 	case n < 72 && leaf.Unmodelled == "":
 		return c25Mutate(r, sf, c25WellFormed(r, leaf, 3, "wellformed"))
+	case n < 82:
+		if k := c25RandomOptlikeValues(r, sf); k != nil {
+			return k
+		}
 	}
 	return c25Soup(r, sf)
 }
@@ -362,7 +386,7 @@ func c25Random(r *rand.Rand, sf *c25Surface) *c25Case {
 // every option once in its first spelling (separate value where possible) and
 // min+1 positionals (within the maximum).
 func c25RichBase(cmd *c25Cmd) (*c25Case, []bool) {
-	k := &c25Case{Family: "base", WF: cmd}
+	k := &c25Case{Family: "base", WF: cmd, For: cmd}
 	var glued []bool // glued[i]: token i is the separate value of token i-1
 	for _, n := range cmd.Path {
 		k.add(n, "cmd:"+n)
@@ -625,5 +649,6 @@ func c25Systematic(sf *c25Surface, allowed map[string]bool) []*c25Case {
 			}
 		}
 	}
+	out = append(out, c25OptlikeValueFamilies(sf)...)
 	return out
 }
